@@ -39,7 +39,11 @@ func filterUniverse() []kv.Obj {
 			}
 		}
 	}
-	sels := []map[string]string{nil, {"l": "1"}, {"l": "1", "t": "q"}, {"t": "2"}}
+	// a label present with the empty string as its value is not the same as an absent label
+	u = append(u, kv.Obj{Kind: "pod", NS: "a", Name: "x", RV: "1", Labels: map[string]string{"l": ""}, Node: "n1"},
+		kv.Obj{Kind: "pod", NS: "a", Name: "y", RV: "1", Labels: map[string]string{"l": "", "t": "q"}, Node: "n2"},
+		kv.Obj{Kind: "pod", NS: "b", Name: "x", RV: "1", Labels: map[string]string{"t": ""}, Node: "n1"})
+	sels := []map[string]string{nil, {"l": "1"}, {"l": "1", "t": "q"}, {"t": "2"}, {"l": ""}, {"t": ""}}
 	for _, ns := range []string{"a", "b"} {
 		for _, name := range []string{"x", "y", "s1", "s2"} {
 			for i, sel := range sels {
@@ -151,7 +155,7 @@ func leafTerms() []kv.Term {
 	} {
 		ts = append(ts, kv.Term{Op: "nsname", IDs: ids})
 	}
-	for _, m := range []map[string]string{nil, {}, {"l": "1"}, {"l": "2"}, {"l": "1", "t": "q"}, {"t": "q"}} {
+	for _, m := range []map[string]string{nil, {}, {"l": "1"}, {"l": "2"}, {"l": "1", "t": "q"}, {"t": "q"}, {"l": ""}, {"t": "", "l": "1"}} {
 		ts = append(ts, kv.Term{Op: "labels", Map: m})
 	}
 	for _, ls := range labelSels() {
@@ -168,7 +172,7 @@ func leafTerms() []kv.Term {
 	for _, inv := range [][]string{{"Pod", "a", "x"}, {"Pod", "b", "x"}, {"Service", "a", "x"}, {"Pod", "a", "y"}, {"", "a", "x"}} {
 		ts = append(ts, kv.Term{Op: "involved", Strs: inv})
 	}
-	for _, m := range []map[string]string{nil, {}, {"l": "1"}, {"l": "1", "t": "q"}, {"t": "2", "l": "1"}} {
+	for _, m := range []map[string]string{nil, {}, {"l": "1"}, {"l": "1", "t": "q"}, {"t": "2", "l": "1"}, {"l": ""}, {"t": ""}} {
 		ts = append(ts, kv.Term{Op: "selmatch", Map: m})
 	}
 	return ts
